@@ -15,7 +15,6 @@ import (
 	"bufio"
 	"fmt"
 	"os"
-	"runtime/pprof"
 	"strconv"
 )
 
@@ -31,11 +30,6 @@ func shardArgs(a []string) (int, int) {
 }
 
 func main() {
-	if pf := os.Getenv("FS_CPUPROFILE"); pf != "" {
-		f, _ := os.Create(pf)
-		pprof.StartCPUProfile(f)
-		defer pprof.StopCPUProfile()
-	}
 	w := bufio.NewWriterSize(os.Stdout, 1<<20)
 	defer w.Flush()
 	ew := bufio.NewWriter(os.Stderr)
